@@ -55,6 +55,7 @@ class float64(floating):
 
 int_ = int64
 int32 = int64
+int16 = int8 = uint8 = uint16 = uint32 = uint64 = int64  # narrower integer types: values are mathematical integers here (wrap-around shows in the replays)
 float_ = float64
 float32 = float64
 object_ = object
